@@ -33,6 +33,8 @@ var Families = map[string]func(t *testing.T, seed int64, steps int) *Cluster{
 	"dupis":       famDupIS,
 	"leaseiso":    famLeaseIso,
 	"staleprefix": famStalePrefix,
+	"voterestart": famVoteRestart,
+	"stalerepl":   famStaleRepl,
 }
 
 // famSnapMember: snapshots racing with membership changes and a slow FSM, then restarts from the snapshot.
